@@ -8,22 +8,23 @@ variable (w : World) (cfg : Cfg)
 
 /-- **C02 (core).**  For every type and every input object: if the fast template accepts, the
 result conforms to the type at every depth. -/
-theorem sound_aux (hw : w.WF) :
-    ∀ (n m : Nat) (t : Ty) (o v : Obj), sizeOf o ≤ n → sizeOf t ≤ m →
+theorem sound_aux (hw : w.WF) (hwm : cfg.gen = true ∨ w.plainMaps) :
+    ∀ (n m : Nat) (t : Ty) (o v : Obj), sizeOf o ≤ n → sizeOf t ≤ m → (cfg.gen = true ∨ t.plainMaps = true) →
       stF w cfg t o = some v → conf w t v = true := by
   intro n
   induction n with
-  | zero => intro m t o v ho _; have : 0 < sizeOf o := by cases o <;> simp <;> omega
+  | zero => intro m t o v ho _ _; have : 0 < sizeOf o := by cases o <;> simp <;> omega
             omega
   | succ n ihn =>
     intro m
     induction m with
-    | zero => intro t o v _ ht; have : 0 < sizeOf t := by cases t <;> simp <;> omega
+    | zero => intro t o v _ ht _; have : 0 < sizeOf t := by cases t <;> simp <;> omega
               omega
     | succ m ihm =>
-      intro t o v ho ht h
-      have IHo : ∀ (t' : Ty) (o' : Obj), sizeOf o' < sizeOf o → ∀ v', stF w cfg t' o' = some v' → conf w t' v' = true :=
-        fun t' o' hlt v' hv => ihn (sizeOf t') t' o' v' (by omega) (Nat.le_refl _) hv
+      intro t o v ho ht hp h
+      have IHo : ∀ (t' : Ty) (o' : Obj), sizeOf o' < sizeOf o → (cfg.gen = true ∨ t'.plainMaps = true) →
+          ∀ v', stF w cfg t' o' = some v' → conf w t' v' = true :=
+        fun t' o' hlt hp' v' hv => ihn (sizeOf t') t' o' v' (by omega) (Nat.le_refl _) hp' hv
       cases t with
       | any => simp [conf]
       | int => simp only [stF] at h; cases hi : o.toInt? <;> simp [hi] at h; subst h; simp [conf]
@@ -56,7 +57,7 @@ theorem sound_aux (hw : w.WF) :
           | some ys =>
             simp only [hf] at h
             have hL := (confL_iff w t' ys).mp (soundL w cfg t' xs
-              (fun x hx v' hv => IHo t' x (by have := List.sizeOf_lt_of_mem hx; omega) v' hv) ys hf)
+              (fun x hx v' hv => IHo t' x (by have := List.sizeOf_lt_of_mem hx; omega) (PM.coll hp) v' hv) ys hf)
             unfold finishColl at h
             by_cases hs : k.structTo.isSet = true
             · simp only [hs, if_true] at h
@@ -81,7 +82,7 @@ theorem sound_aux (hw : w.WF) :
           | some ys =>
             simp [hf] at h; subst h
             simpa [conf] using soundT w cfg ts xs
-              (fun t' _ x hx v' hv => IHo t' x (by have := List.sizeOf_lt_of_mem hx; omega) v' hv) ys hf
+              (fun t' ht' x hx v' hv => IHo t' x (by have := List.sizeOf_lt_of_mem hx; omega) (PM.tup hp t' ht') v' hv) ys hf
       | map k kt vt =>
         cases o with
         | dict kvs =>
@@ -92,14 +93,14 @@ theorem sound_aux (hw : w.WF) :
             simp only [hf] at h
             by_cases hz : hashableL w (keysOf r) = true
             · simp only [hz, if_true] at h; cases h
-              have hKV := (confKV_iff w kt vt r).mp (soundKV w cfg kt vt kvs (fun p hp => by
-                have h1 := List.sizeOf_lt_of_mem hp
+              have hKV := (confKV_iff w kt vt r).mp (soundKV w cfg kt vt kvs (fun p hpm => by
+                have h1 := List.sizeOf_lt_of_mem hpm
                 obtain ⟨a, b⟩ := p
                 simp only [Prod.mk.sizeOf_spec] at h1
-                exact ⟨fun v' hv => IHo kt a (by simp; omega) v' hv, fun v' hv => IHo vt b (by simp; omega) v' hv⟩) r hf)
-              simp only [conf, Bool.and_eq_true, mkDict_keys_nodup, and_true]
-              refine ⟨(confKV_iff w kt vt _).mpr ⟨fun a ha => hKV.1 a (mkDict_keys_mem ha),
-                fun b hb => hKV.2 b (mkDict_vals_mem hb)⟩, ?_⟩
+                exact ⟨fun v' hv => IHo kt a (by simp; omega) (PM.mapK hp) v' hv,
+                  fun v' hv => IHo vt b (by simp; omega) (PM.mapV hp) v' hv⟩) r hf)
+              refine conf_mapRes w cfg k kt vt _ (PM.mapT hp) ⟨(confKV_iff w kt vt _).mpr ⟨fun a ha => hKV.1 a (mkDict_keys_mem ha),
+                fun b hb => hKV.2 b (mkDict_vals_mem hb)⟩, mkDict_keys_nodup _, ?_⟩
               exact hashableL_of_subset w (fun z hz' => mkDict_keys_mem hz') hz
             · simp [hz] at h
         | _ => simp [stF] at h
@@ -109,12 +110,12 @@ theorem sound_aux (hw : w.WF) :
         | none => simp [stF] at h; subst h; simp [conf]
         | _ =>
           simp only [stF] at h
-          have := ihm t' _ v ho hsz h
+          have := ihm t' _ v ho hsz (PM.opt hp) h
           cases v <;> simp_all [conf]
       | wrap k t' =>
         have hsz : sizeOf t' ≤ m := by simp at ht; omega
         simp only [stF] at h
-        simpa [conf] using ihm t' o v ho hsz h
+        simpa [conf] using ihm t' o v ho hsz (PM.wrap hp) h
       | cls c =>
         have hdef : ∀ f ∈ w.fields c, ∀ d, f.dflt.value? = some d → fconf w f d = true := hw.defaultsOK c
         by_cases htup : cfg.tupleStrat = true
@@ -129,7 +130,7 @@ theorem sound_aux (hw : w.WF) :
             | some fs =>
               simp [hf] at h; subst h
               simpa [conf] using soundFieldsT w cfg (w.fields c) xs
-                (fun f _ x hx t' _ v' hv => IHo t' x (by have := List.sizeOf_lt_of_mem hx; omega) v' hv) hdef fs hf
+                (fun f hf' x hx t' ht' v' hv => IHo t' x (by have := List.sizeOf_lt_of_mem hx; omega) (PM.field hwm hf' ht') v' hv) hdef fs hf
         · have htup' : cfg.tupleStrat = false := by simpa using htup
           cases o with
           | dict kvs =>
@@ -142,7 +143,7 @@ theorem sound_aux (hw : w.WF) :
               · cases h
               · cases h
                 simpa [conf] using soundFields w cfg kvs (w.fields c)
-                  (fun f _ x hx t' _ v' hv => IHo t' x (by have := dlookup_lt hx; simp; omega) v' hv) hdef fs hf
+                  (fun f hf' x hx t' ht' v' hv => IHo t' x (by have := dlookup_lt hx; simp; omega) (PM.field hwm hf' ht') v' hv) hdef fs hf
           | _ =>
             rw [stF_cls_other w cfg htup' (by intro kvs h; cases h)] at h
             have key : ∀ fs, defaultsOf (w.fields c) = some fs → conf w (.cls c) (.inst c fs) = true := by
@@ -176,7 +177,7 @@ theorem sound_aux (hw : w.WF) :
               · cases h
               · cases h
                 have := soundTD w cfg kvs (w.fields c) kvs r
-                  (fun f _ x hx t' _ v' hv => IHo t' x (by have := dlookup_lt hx; simp; omega) v' hv)
+                  (fun f hf' x hx t' ht' v' hv => IHo t' x (by have := dlookup_lt hx; simp; omega) (PM.field hwm hf' ht') v' hv)
                   rfl (hw.namesNodup c) hf
                 simpa [conf] using (confTD_iff w r (w.fields c)).mpr this.2.1
           · simp [hg] at h
@@ -188,7 +189,7 @@ theorem sound_aux (hw : w.WF) :
           simp only [hp] at h
           by_cases hk : k ∈ cs
           · simp only [hk, if_true] at h
-            have hc := ihm (.cls k) o v ho (by have := sizeOf_cls_lt_union hk hn; omega) h
+            have hc := ihm (.cls k) o v ho (by have := sizeOf_cls_lt_union hk hn; omega) PM.cls h
             cases v <;> simp [conf] at hc
             rename_i c' fs
             simp only [conf, Bool.and_eq_true, List.contains_iff_mem]
@@ -212,7 +213,7 @@ theorem sound_aux (hw : w.WF) :
             | some ys =>
               simp [hf] at h; subst h
               have hT := soundT w cfg (w.ntTys c) xs
-                (fun t' _ x hx v' hv => IHo t' x (by have := List.sizeOf_lt_of_mem hx; omega) v' hv) ys hf
+                (fun t' ht' x hx v' hv => IHo t' x (by have := List.sizeOf_lt_of_mem hx; omega) (PM.ntTy hwm ht') v' hv) ys hf
               have hlen : (w.ntNames c).length = ys.length := by
                 rw [confT_length w _ _ hT, ntTys_length]
               simp only [ntMk, conf, beq_self_eq_true, hnt, Bool.true_and, Bool.and_eq_true]
@@ -220,8 +221,8 @@ theorem sound_aux (hw : w.WF) :
               exact ⟨by simp, hT⟩
           · simp [hnt] at h
 
-theorem sound (hw : w.WF) (t : Ty) (o v : Obj) (h : stF w cfg t o = some v) : conf w t v = true :=
-  sound_aux w cfg hw (sizeOf o) (sizeOf t) t o v (Nat.le_refl _) (Nat.le_refl _) h
+theorem sound (hw : w.WF) (t : Ty) (hm : MapsInScope w cfg t) (o v : Obj) (h : stF w cfg t o = some v) : conf w t v = true :=
+  sound_aux w cfg hw (hm.imp id (·.1)) (sizeOf o) (sizeOf t) t o v (Nat.le_refl _) (Nat.le_refl _) (hm.imp id (·.2)) h
 
 /-- a present but invalid value of a typed, initialised field makes the whole class fail -/
 theorem stFFields_present_invalid (kvs : List (Obj × Obj)) : ∀ (fds : List Field) (f : Field) (x : Obj),
